@@ -398,6 +398,7 @@ pub fn catch<R>(f: impl FnOnce() -> R + std::panic::UnwindSafe) -> Result<R, Str
                 "non-string panic".to_string()
             };
             let loc = LAST_PANIC_LOC.with(|l| l.borrow().clone());
+            let loc = loc.rsplit(" @ ").next().unwrap_or("").to_string();
             Err(format!("{msg} @ {loc}"))
         }
     }
@@ -426,9 +427,33 @@ pub fn install_quiet_panic_hook() {
         } else {
             String::new()
         };
-        LAST_PANIC_LOC.with(|l| *l.borrow_mut() = loc.clone());
+        LAST_PANIC_LOC.with(|l| *l.borrow_mut() = format!("{msg} @ {loc}"));
         if let Ok(mut g) = LAST_PANIC_GLOBAL.lock() {
             *g = format!("{msg} @ {loc}");
         }
     }));
+}
+
+/// Normalises a panic description into a stable class: numbers replaced by '#', registry paths
+/// reduced to the file name.
+pub fn panic_class(desc: &str) -> String {
+    let (msg, loc) = match desc.rsplit_once(" @ ") {
+        Some((m, l)) => (m, l),
+        None => (desc, ""),
+    };
+    let file = loc.rsplit('/').next().unwrap_or(loc).split(':').next().unwrap_or("");
+    let mut m = String::new();
+    let mut last_hash = false;
+    for c in msg.chars() {
+        if c.is_ascii_digit() {
+            if !last_hash {
+                m.push('#');
+                last_hash = true;
+            }
+        } else {
+            m.push(c);
+            last_hash = false;
+        }
+    }
+    format!("{}@{}", truncate(&m, 80), file)
 }
